@@ -17,10 +17,8 @@ func {{ .InitName }}(mux goahttp.Muxer, {{ .VarName }} {{ .FuncName }}) func(r *
 			}
 			{{- end }}
 			{{- if .Payload.Request.PayloadInit }}
-				{{- range .Payload.Request.PayloadInit.ServerArgs }}
-					{{- if .FieldName }}
-			(*p).{{ .FieldName }} = {{ if and (not .Pointer) .FieldPointer }}&{{ end }}{{ .VarName }}
-					{{- end }}
+				{{- with multipartFieldCode .Payload.Request.PayloadInit }}
+			{{ . }}
 				{{- end }}
 			{{- end }}
 			return nil
